@@ -1,10 +1,55 @@
 /-
   C01 — Evaluation is total and every result is well-formed.
-  Statements only (proofs by appeal to LDEval/Proofs/*).
+
+  "For every flag configuration (including malformed data …), every context and every data-store
+  content, evaluating a non-nil flag terminates without panicking. The result is either a
+  variation index that is in range together with exactly that variation's value and a non-error
+  reason, or no index with a null value and a reason that is an error (MALFORMED_FLAG …,
+  USER_NOT_SPECIFIED for an invalid context, never any other error kind) or, only when the flag
+  defines no off variation, OFF / PREREQUISITE_FAILED. An invalid or uninitialized context always
+  yields USER_NOT_SPECIFIED without consulting the data store."
+
+  Statements only; proofs by appeal to LDEval/Proofs/{WellFormed,EvalWF,Total}.lean.
+  The model has no partial operation (every list access is total by construction and returns the
+  in-range element exactly when the Go bounds check passes), so "does not panic" is: the model's
+  only abnormal outcome, running out of recursion fuel, is unreachable.
 -/
-import LDEval.Spec.WellFormed
+import LDEval.Proofs.Total
 
 namespace LD.C01
+
+/-- Evaluation terminates for every flag, context and store: the fuel `(#distinct keys)+2` is
+never exhausted, whatever the prerequisite and segment reference graphs look like. -/
+theorem total (env : Env) (f : Flag) : (evaluate env f).outcome = .done :=
+  evaluate_total env f
+
+/-- Every result is well-formed (the trichotomy of the property statement), for all inputs. -/
+theorem wellformed (env : Env) (f : Flag) : WellFormed f (evaluate env f).result.detail :=
+  evaluate_wellformed env f
+
+/-- An error result is MALFORMED_FLAG or USER_NOT_SPECIFIED, never any other kind. -/
+theorem error_kinds (env : Env) (f : Flag)
+    (he : (evaluate env f).result.detail.reason.kind = .error) :
+    (evaluate env f).result.detail.reason.errorKind = some .malformedFlag ∨
+    (evaluate env f).result.detail.reason.errorKind = some .userNotSpecified :=
+  evaluate_error_kinds_total env f he
+
+/-- In particular the bare segment-cycle error (whose Go type has no `errorKind` and would map to
+EXCEPTION) never reaches the caller. -/
+theorem never_exception (env : Env) (f : Flag) :
+    (evaluate env f).result.detail.reason.errorKind ≠ some .exception :=
+  evaluate_never_exception env f
+
+/-- USER_NOT_SPECIFIED is reported exactly for invalid contexts. -/
+theorem userNotSpecified_iff (env : Env) (f : Flag) :
+    (evaluate env f).result.detail.reason.errorKind = some .userNotSpecified ↔ env.ctx = .invalid :=
+  evaluate_userNotSpecified_iff_total env f
+
+/-- An aborted (nested) evaluation is always MALFORMED_FLAG with no index and a null value. -/
+theorem abort_is_malformed {sf n env f chain st d st'}
+    (h : evalFlag sf n env f chain st = (.done d false, st')) :
+    d.reason = Reason.error .malformedFlag ∧ d.index = none ∧ d.value = .null :=
+  LD.abort_is_malformed h
 
 /-- An invalid or uninitialised context yields USER_NOT_SPECIFIED, and nothing at all is consulted:
 no store lookup, no big-segment query, no event, no log line. -/
@@ -14,10 +59,14 @@ theorem invalid_ctx (env : Env) (f : Flag) (h : env.ctx = .invalid) :
     o.result.detail.value = .null ∧ o.result.isExperiment = false ∧
     o.flagLookups = [] ∧ o.segLookups = [] ∧ o.bsQueries = [] ∧ o.memChecks = [] ∧
     o.events = [] ∧ o.logs = [] ∧ o.outcome = .done := by
-  simp [evaluate, h, Detail.forError, isExperimentResult, Reason.error]
+  simp [evaluate, h, Detail.forError, Reason.error]
 
-example : (evaluate { opts := {}, store := {}, bs := none, ctx := .invalid, rx := fun _ _ => none }
-    { key := "f", on := true }).result.detail.reason.errorKind = some .userNotSpecified := by
-  simp [evaluate, Detail.forError, Reason.error]
+-- Non-vacuity: the three branches of `WellFormed` are all inhabited.
+example : WellFormed { key := "f", variations := [.bool true] }
+    { value := .bool true, index := some 0, reason := Reason.fallthrough } := by
+  left; exact ⟨0, rfl, by simp, rfl, by simp [Reason.fallthrough], rfl⟩
+example : WellFormed { key := "f" } (Detail.forError .malformedFlag) := wf_forError_malformed _
+example : WellFormed { key := "f" } { reason := Reason.off } := by
+  right; right; simp [Reason.off]
 
 end LD.C01
